@@ -11,7 +11,7 @@ SO_PINS = [b'so-pin-A1', b'so-pin-B2', b'so-pin-C3']; USER_PINS = [b'user-pin-A'
 # attributes the model tracks (read back after creation so defaults are known), per class
 TRACK = {
     'CKO_DATA': ['CKA_CLASS', 'CKA_TOKEN', 'CKA_PRIVATE', 'CKA_MODIFIABLE', 'CKA_LABEL', 'CKA_APPLICATION', 'CKA_OBJECT_ID', 'CKA_VALUE'],
-    'CKO_SECRET_KEY': ['CKA_CLASS', 'CKA_TOKEN', 'CKA_PRIVATE', 'CKA_MODIFIABLE', 'CKA_LABEL', 'CKA_KEY_TYPE', 'CKA_ID', 'CKA_ENCRYPT', 'CKA_DECRYPT', 'CKA_SIGN', 'CKA_DERIVE', 'CKA_SENSITIVE', 'CKA_EXTRACTABLE', 'CKA_VALUE_LEN'],
+    'CKO_SECRET_KEY': ['CKA_CLASS', 'CKA_TOKEN', 'CKA_PRIVATE', 'CKA_MODIFIABLE', 'CKA_LABEL', 'CKA_KEY_TYPE', 'CKA_ID', 'CKA_ENCRYPT', 'CKA_DECRYPT', 'CKA_SIGN', 'CKA_DERIVE', 'CKA_SENSITIVE', 'CKA_EXTRACTABLE', 'CKA_VALUE_LEN', 'CKA_KEY_GEN_MECHANISM'],
     'CKO_CERTIFICATE': ['CKA_CLASS', 'CKA_TOKEN', 'CKA_PRIVATE', 'CKA_MODIFIABLE', 'CKA_LABEL', 'CKA_CERTIFICATE_TYPE', 'CKA_ID', 'CKA_SUBJECT', 'CKA_TRUSTED'],
 }
 BOOLS = {'CKA_TOKEN', 'CKA_PRIVATE', 'CKA_MODIFIABLE', 'CKA_ENCRYPT', 'CKA_DECRYPT', 'CKA_SIGN', 'CKA_VERIFY', 'CKA_WRAP', 'CKA_UNWRAP', 'CKA_DERIVE', 'CKA_SENSITIVE', 'CKA_EXTRACTABLE', 'CKA_TRUSTED', 'CKA_COPYABLE', 'CKA_DESTROYABLE', 'CKA_LOCAL', 'CKA_ALWAYS_SENSITIVE', 'CKA_NEVER_EXTRACTABLE'}
@@ -115,7 +115,9 @@ class Walk:
         if ti is None: ti = s.rnd.randrange(len(s.m.toks))
         if rw is None: rw = s.rnd.random() < 0.6
         t = s.m.toks[ti]; s.H('open', ti, rw)
-        r = s.c('C_OpenSession', slot=t.slot, flags=4 | (2 if rw else 0)); ok = s.m.open_allowed(ti, rw)
+        extra = s.rnd.choice([0x1, 0x8, 0x100, 0x80000000, 0x109]) if s.rnd.random() < 0.12 else 0      # undefined flag bits: whether they are tolerated is the token's choice, but RO/RW is decided by CKF_RW_SESSION alone
+        r = s.c('C_OpenSession', slot=t.slot, flags=4 | (2 if rw else 0) | extra); ok = s.m.open_allowed(ti, rw)
+        if extra and r['rv'] != 0 and ok: s.cov('C03', ('open-extra-flags-refused',)); return
         if r['rv'] == 0 and not ok: s.F('C03', 'C_OpenSession|RO-while-SO|accepted', 'read-only session opened while the SO is logged in', got=r['rvname'])
         if r['rv'] != 0 and ok: s.F('CTRL', 'C_OpenSession|refused', 'an allowed C_OpenSession failed', got=r['rvname'], rw=rw, login=t.login)
         s.cov('C03', ('open', rw, t.login, ok))
@@ -127,13 +129,13 @@ class Walk:
         se = se or s.pick_sess()
         if not se: return
         s.H('close', se.h); r = s.c('C_CloseSession', s=se.h)
-        if r['rv'] != 0: s.F('CTRL', 'C_CloseSession|failed', 'closing a live session failed', got=r['rvname'])
+        if r['rv'] != 0: s.F('C03', f'C_CloseSession|live-session|refused:{r["rvname"]}', 'closing a live session failed', got=r['rvname'])
         else: s.m.on_close(se)
         s.cov('C03', ('close', len(s.m.live_sessions(se.ti)) == 0))
     def op_closeall(s, ti=None):
         if ti is None: ti = s.rnd.randrange(len(s.m.toks))
         s.H('closeall', ti); r = s.c('C_CloseAllSessions', slot=s.m.toks[ti].slot)
-        if r['rv'] != 0: s.F('CTRL', 'C_CloseAllSessions|failed', 'close-all failed', got=r['rvname'])
+        if r['rv'] != 0: s.F('C03', f'C_CloseAllSessions|refused:{r["rvname"]}', 'close-all failed', got=r['rvname'])
         else: s.m.on_all_closed(ti)
         s.cov('C03', ('closeall', s.m.toks[ti].login))
     def op_login(s, se=None, ut=None, right=None):
@@ -159,7 +161,7 @@ class Walk:
         se = se or s.pick_sess()
         if not se: return
         t = s.m.toks[se.ti]; s.H('logout', se.h); r = s.c('C_Logout', s=se.h)
-        if r['rv'] != 0 and t.login is not None: s.F('CTRL', 'C_Logout|failed', 'logout failed while logged in', got=r['rvname'])
+        if r['rv'] != 0 and t.login is not None: s.F('C03', f'C_Logout|logged-in|refused:{r["rvname"]}', 'logout failed while logged in', got=r['rvname'])
         if r['rv'] == 0: s.m.on_logout(se.ti)
         s.cov('C03', ('logout', t.login))
     def op_inittoken(s, ti=None, right=None, null_label=None):
@@ -323,7 +325,7 @@ class Walk:
             got = decode_attr(at, bytes.fromhex(e['data']))
             if got != o.attrs[at]: s.F('C05', f'C_GetAttributeValue|{at}|value-differs', 'attribute value differs from what was written', uid=o.uid, got=got, want=o.attrs[at])
     def gen_template(s, se):
-        pool = ['CKA_APPLICATION', 'CKA_ID', 'CKA_TOKEN', 'CKA_PRIVATE', 'CKA_CLASS', 'CKA_ENCRYPT', 'CKA_LABEL', 'CKA_KEY_TYPE', 'CKA_MODIFIABLE', 'CKA_VALUE_LEN', 'CKA_SUBJECT', 'CKA_OBJECT_ID', 'CKA_VALUE', 'CKA_VALUE', 'CKA_DECRYPT', 'CKA_SENSITIVE', 'CKA_CERTIFICATE_TYPE']
+        pool = ['CKA_APPLICATION', 'CKA_ID', 'CKA_TOKEN', 'CKA_PRIVATE', 'CKA_CLASS', 'CKA_ENCRYPT', 'CKA_LABEL', 'CKA_KEY_TYPE', 'CKA_MODIFIABLE', 'CKA_VALUE_LEN', 'CKA_SUBJECT', 'CKA_OBJECT_ID', 'CKA_VALUE', 'CKA_VALUE', 'CKA_DECRYPT', 'CKA_SENSITIVE', 'CKA_CERTIFICATE_TYPE', 'CKA_KEY_GEN_MECHANISM']
         k = s.rnd.choice([0, 0, 1, 1, 1, 2, 2, 3]); templ = []; objs = [o for o in s.m.objs.values() if o.alive]
         for _ in range(k):
             t = s.rnd.choice(pool)
@@ -333,7 +335,7 @@ class Walk:
             if s.rnd.random() < 0.12:      # wrong-sized raw value: can equal nothing (never 1 byte for a boolean / 8 for an integer)
                 v = s.rnd.choice([b'', b'\x01\x00', b'\x00\x00\x00', b'\x01\x00\x00\x00']) if (t in BOOLS or t in ULONGS) else s.rnd.randbytes(s.rnd.choice([1, 3, 70]))
             elif t in BOOLS: v = s.rnd.random() < .5
-            elif t in ULONGS: v = s.rnd.choice([s.ck.CKO_DATA, s.ck.CKO_SECRET_KEY, s.ck.CKK_AES, 16, 32, 0x7fffffff])
+            elif t in ULONGS: v = s.rnd.choice([s.ck.CKO_DATA, s.ck.CKO_SECRET_KEY, s.ck.CKK_AES, 16, 32, 0x7fffffff, 0xffffffff, 0x7fffffffffffffff, 0xffffffffffffffff])
             else: v = s.rnd.choice([b'', b'app1', b'app2', b'\x01', b'id-2', b'zz', b'U00001'])
             templ.append((t, v))
         return templ
